@@ -350,6 +350,23 @@ void run_cb(vh::Case &c, const CbConfig &cfg)
                      << cfg.capacity << ")");
     c.tag("add-failed-full");
   }
+  // "the number of queued elements never exceeds the capacity", derived from the history: at the moment
+  // a successful Add returned, the elements certainly inside are the successful Adds that had returned
+  // by then minus everything handed to Consume calls that had STARTED by then (an upper bound on what
+  // could have left the queue) - a lower bound on the occupancy
+  for (auto &a : adds)
+  {
+    if (!a.ok)
+      continue;
+    long in = 0, out = 0;
+    for (auto &q : adds)
+      in += q.ok && q.ret <= a.ret;
+    for (auto &f : consumes)
+      if (f.call <= a.ret)
+        out += static_cast<long>(f.got.size());
+    VH_CHECK(c, in - out <= cfg.capacity, "when Add p" << a.producer << "#" << a.seq << " returned at least " << (in - out)
+                                                       << " elements were queued, the capacity is " << cfg.capacity);
+  }
   VH_CHECK(c, max_size_seen <= static_cast<size_t>(cfg.capacity),
            "size() reported " << max_size_seen << " > capacity " << cfg.capacity);
   VH_CHECK(c, g_live == 0 && g_constructed == g_destroyed,
